@@ -293,8 +293,9 @@ def _moderate_tall_matrix(draw):
     """12..32 columns with a graded spectrum (cond up to 1e3): the sizes where floating-point CG needs
     several times n steps.  Unitary factors are two PRNG Householder reflectors each (the convergence
     history depends on the spectrum and on the components of the start, not on the factors' fine structure)."""
-    n = draw(st.integers(12, 32))
-    m = n + draw(st.sampled_from([0, 1, 5, n]))
+    n = draw(st.integers(12, 40))
+    # aspect ratios up to 5 (a Gram-matrix shortcut for very tall inputs squares the conditioning once more)
+    m = n + draw(st.sampled_from([0, 1, 5, n, 3 * n, 3 * n, 4 * n]))
     rng = np.random.RandomState(draw(st.integers(0, 2 ** 31 - 1)))
     kappa = draw(st.sampled_from(KAPPAS_MID + KAPPAS_HARD * 2))
     # n DISTINCT graded values (the few-valued spectra of _spectrum let CG finish in a handful of steps)
@@ -318,6 +319,24 @@ def _moderate_tall_matrix(draw):
 
 
 MAXIT = {"quick": [1, 3, 10, 30, 100, 300, 300, 300], "thorough": [1, 2, 3, 5, 10, 30, 100, 300, 300, 300, 1000]}
+
+
+def _digest(x):
+    """Value digest of a returned (X, info) pair (timing fields excluded): what a caller keeps from an earlier call on
+    the same solver object must not change when the solver is used again."""
+    if isinstance(x, dict):
+        return tuple((str(k), _digest(v)) for k, v in sorted(x.items(), key=lambda kv: str(kv[0])) if "time" not in str(k).lower())
+    if isinstance(x, (list, tuple)):
+        return tuple(_digest(v) for v in x)
+    if isinstance(x, np.ndarray):
+        return ("nd", x.shape, str(x.dtype), ahash(x))
+    return repr(x)
+
+
+def _kept_result_check(out, site, keep):
+    if "before" in keep:
+        out.true(f"{site}:what the earlier call on the same solver returned is unchanged by the later call",
+                 keep["before"] == keep.get("after"), "the (X, info) kept from the warm-up call changed during the next call")
 
 
 def _warm_matrix(A):
@@ -429,6 +448,8 @@ def check_rsp_column(case):
     Aq = Q(A)
     h0 = ahash(Aq)
 
+    keep = {}
+
     def run():
         kw = dict(block_size=case["block"], max_iter=case["max_iter"], tol=tol, test_sketch_size=s,
                   column_solver=case["solver"], verbose=case_flag(A, 6))
@@ -440,13 +461,18 @@ def check_rsp_column(case):
         if case.get("warmup"):
             # the SAME solver object first solves a nearby problem of the same shape; the measured call is then
             # re-seeded exactly like a fresh one (a result may depend on configuration and argument only)
-            getattr(sol, case["entry"])(Q(_warm_matrix(A)))
+            keep["w"] = getattr(sol, case["entry"])(Q(_warm_matrix(A)))
+            keep["before"] = _digest(keep["w"])
             np.random.seed(seed)
-        return getattr(sol, case["entry"])(Aq)
+        res_ = getattr(sol, case["entry"])(Aq)
+        if "w" in keep:
+            keep["after"] = _digest(keep["w"])
+        return res_
 
     if case.get("warmup"):
         out.label("reused_solver(warm-up call on a nearby matrix)")
     ok, res = out.call(site, quiet, run)
+    _kept_result_check(out, site, keep)
     if not ok:
         return out
     out.true(f"{site}:argument unchanged", ahash(Aq) == h0, "input array modified")
@@ -536,6 +562,8 @@ def check_rsp_row(case):
     Aq = Q(A)
     h0 = ahash(Aq)
 
+    keep = {}
+
     def run():
         kw = dict(block_size=case["block"], max_iter=case["max_iter"], tol=tol, test_sketch_size=s, verbose=case_flag(A, 6))
         if case["seed_mode"] == "ctor":
@@ -546,6 +574,7 @@ def check_rsp_row(case):
         return getattr(sol, case["entry"])(Aq)
 
     ok, res = out.call(site, quiet, run)
+    _kept_result_check(out, site, keep)
     if not ok:
         return out
     out.true(f"{site}:argument unchanged", ahash(Aq) == h0, "input array modified")
@@ -630,6 +659,8 @@ def check_hybrid(case):
     Aq = Q(A)
     h0 = ahash(Aq)
 
+    keep = {}
+
     def run():
         kw = dict(r=r, p=p, T=T, tol=tol, max_iter=case["max_iter"], column_solver=solver, verbose=case_flag(A, 6))
         if case["seed_mode"] == "ctor":
@@ -638,11 +669,16 @@ def check_hybrid(case):
             sol = L.solver.HybridRSPNewtonSchulz(seed=None, **kw)
             np.random.seed(seed)
         if case.get("warmup"):
-            sol.compute(Q(_warm_matrix(A)))
+            keep["w"] = sol.compute(Q(_warm_matrix(A)))
+            keep["before"] = _digest(keep["w"])
             np.random.seed(seed)
-        return sol.compute(Aq)
+        res_ = sol.compute(Aq)
+        if "w" in keep:
+            keep["after"] = _digest(keep["w"])
+        return res_
 
     ok, res = out.call(site, quiet, run)
+    _kept_result_check(out, site, keep)
     if not ok:
         return out
     out.true(f"{site}:argument unchanged", ahash(Aq) == h0, "input array modified")
@@ -709,18 +745,25 @@ def check_cgne(case):
     Aq = Q(A)
     h0 = ahash(Aq)
 
+    keep = {}
+
     def run():
         kw = dict(tol=tol, preconditioner_rank=pr, seed=seed, verbose=case_flag(A, 6))
         if case["max_iter"] is not None:
             kw["max_iter"] = case["max_iter"]
         sol = L.solver.CGNEQSolver(**kw)
         if case.get("warmup"):
-            sol.compute(Q(_warm_matrix(A)))
+            keep["w"] = sol.compute(Q(_warm_matrix(A)))
+            keep["before"] = _digest(keep["w"])
             if seed is not None:
                 np.random.seed(seed)
-        return sol.compute(Aq)
+        res_ = sol.compute(Aq)
+        if "w" in keep:
+            keep["after"] = _digest(keep["w"])
+        return res_
 
     ok, res = out.call(site, quiet, run)
+    _kept_result_check(out, site, keep)
     if not ok:
         return out
     out.true(f"{site}:argument unchanged", ahash(Aq) == h0, "input array modified")
